@@ -87,8 +87,8 @@ class EllipsePixelRegion(PixelRegion):
         self.width = width
         self.height = height
         self.angle = angle
-        self.meta = meta or RegionMeta()
-        self.visual = visual or RegionVisual()
+        self.meta = RegionMeta() if meta is None else meta
+        self.visual = RegionVisual() if visual is None else visual
 
     @property
     def area(self):
@@ -363,8 +363,8 @@ class EllipseSkyRegion(SkyRegion):
         self.width = width
         self.height = height
         self.angle = angle
-        self.meta = meta or RegionMeta()
-        self.visual = visual or RegionVisual()
+        self.meta = RegionMeta() if meta is None else meta
+        self.visual = RegionVisual() if visual is None else visual
 
     def to_pixel(self, wcs):
         center, pixscale, north_angle = pixel_scale_angle_at_skycoord(
